@@ -50,12 +50,14 @@ type cRes struct {
 	Post  int      `json:"post"`
 	Timer bool     `json:"timer"`
 	Panic string   `json:"panic,omitempty"`
+	All   []cCall  `json:"all,omitempty"` // every callback invocation of the case so far (reported by "quiesce")
 }
 
 func runCacheCase(cs cCase) []cRes {
 	var c *Cache[string, int]
 	fails := map[string]bool{}
 	calls := []cCall{}
+	allCalls := []cCall{} // never reset: callbacks of a background prune can fall between two events
 	var mu sync.Mutex
 	pre, post := 0, 0
 	var during func()
@@ -66,6 +68,7 @@ func runCacheCase(cs cCase) []cRes {
 			mu.Lock()
 			ok := !fails[k]
 			calls = append(calls, cCall{k, v, ok})
+			allCalls = append(allCalls, cCall{k, v, ok})
 			mu.Unlock()
 			if during != nil {
 				f := during
@@ -177,6 +180,9 @@ func runCacheCase(cs cCase) []cRes {
 		r.Timer = c.VerifTimerSet() // (not under mu: a racing prune holds the cache mutex while its callback takes mu)
 		mu.Lock()
 		r.Keys, r.Calls, r.Pre, r.Post = keys, calls, pre, post
+		if ev.Op == "quiesce" {
+			r.All = append([]cCall{}, allCalls...)
+		}
 		mu.Unlock()
 		out = append(out, r)
 	}
